@@ -63,7 +63,8 @@ class Limits:
 
     def violation(self, clause, detail, case):
         if len(self.res.violations) < 5:
-            self.res.violations.append(dict(case, suite='limits', clause=clause, detail=detail))
+            self.res.violations.append(dict(case, suite='limits', clause=clause, detail=detail,
+                                            tags=[str(case.get('part', 'limits'))]))
 
     # ------------------------------------------------------------------ headers
     async def headers_part(self):
@@ -352,7 +353,7 @@ class Limits:
             async def ask(sess, method, tag):
                 try:
                     return await asyncio.wait_for(
-                        sess.handle_request(Request(method, [W.scripthash_hex(W.script_for(tag))])), 20)
+                        sess.handle_request(Request(method, [W.scripthash_hex(W.script_for(tag))])), 600)
                 except RPCError as e:
                     return ('rpc', e.code)
                 except asyncio.TimeoutError:
@@ -361,7 +362,7 @@ class Limits:
                 jobs.append((L, 1000 + n, asyncio.ensure_future(ask(sess, 'blockchain.scripthash.get_history', 1000 + n))))
         t0 = _time.time()                # wait until every request has been through the retry loop's sleep
         while (any(not f.done() and id(f) not in retried for _L, _t, f in jobs)
-               and _time.time() - t0 < 15):     # (a script already at the limit is refused without a retry)
+               and _time.time() - t0 < 180):   # (generous: a loaded machine must not turn into a verdict)     # (a script already at the limit is refused without a retry)
             await asyncio.sleep(0.05)
         self.res.bump('retry_window_requests_that_slept_in_the_retry_loop', len(retried))
         self.res.bump('retry_window_requests_still_waiting_when_the_flush_completed',
@@ -401,7 +402,7 @@ class Limits:
         async def ask(sess, method, tag):
             try:
                 return await asyncio.wait_for(
-                    sess.handle_request(Request(method, [W.scripthash_hex(W.script_for(tag))])), 30)
+                    sess.handle_request(Request(method, [W.scripthash_hex(W.script_for(tag))])), 600)
             except RPCError as e:
                 return ('rpc', e.code)
             except asyncio.TimeoutError:
@@ -431,7 +432,7 @@ class Limits:
                 if armed[0]:
                     armed[0] = False
                     entered.set()
-                    gate.wait(30)
+                    gate.wait(300)
                 return orig(tx_num)
             world.db.fs_tx_hash = held
             try:
@@ -473,6 +474,76 @@ class Limits:
                                             f'{r3 if not isinstance(r3, str) else "a status"} / subscription kept: '
                                             f'{hashX in ctx.sessions[1].hashX_subs} for a history of {now} >= L={L}', case)
 
+    async def shrink_part(self, world, per_mgr, lengths):
+        """A reorganisation that SHRINKS a history across the limit.  A script with L-1 entries gets its L-th
+        in a block; get_history / subscribe are refused (and the refusal is cached); the block is backed out
+        with the real back-out and the chain grows again past the old height without touching the script; the
+        notifications of the real server follow (the back-out's touched set).  At quiescence the history has
+        L-1 entries again: it must be served whole, subscribe must answer its status - by the client that was
+        refused and by a new one.  Direct oracle only."""
+        from aiorpcx import Request, RPCError
+        H = lambda t: W.hashX_of(W.script_for(t))          # noqa: E731
+
+        async def ask(sess, method, tag):
+            try:
+                return await asyncio.wait_for(
+                    sess.handle_request(Request(method, [W.scripthash_hex(W.script_for(tag))])), 600)
+            except RPCError as e:
+                return ('rpc', e.code)
+            except asyncio.TimeoutError:
+                return ('timeout',)
+        for ctx, _runner, _near, _hx, L, status_of in per_mgr:
+            cands = [(len(world.history[H(1000 + n)]), 1000 + n) for n in lengths
+                     if L - 4 <= len(world.history[H(1000 + n)]) < L]
+            if not cands:
+                continue
+            cur, tag = max(cands)
+            while cur < L - 1:
+                await world.add_block([tag])
+                world.flush()
+                cur += 1
+            hashX = H(tag)
+            mgr = ctx.mgr_ref
+            world.mgr = ctx.w.mgr = mgr
+            world.max_send = ctx.max_send_ref
+            world.sessions = ctx.sessions
+            if hashX in mgr._history_cache:
+                del mgr._history_cache[hashX]
+            for sx in ctx.sessions:
+                sx.hashX_subs.pop(hashX, None)
+            touched = await world.add_block([tag])
+            world.flush()
+            await mgr._notify_sessions(world.height, set(touched))
+            r0 = await ask(ctx.sessions[0], 'blockchain.scripthash.get_history', tag)
+            r0s = await ask(ctx.sessions[0], 'blockchain.scripthash.subscribe', tag)
+            case = {'part': 'shrink', 'limit': L, 'length_over': len(world.history[hashX]), 'length_after': L - 1}
+            if r0 != ('rpc', 1) or r0s != ('rpc', 1):
+                self.violation('history', f'a history of {len(world.history[hashX])} >= L={L} was answered {str(r0)[:60]} / '
+                                          f'{str(r0s)[:60]}', case)
+            back = await world.remove_block()
+            t2 = await world.add_block([])
+            world.flush()
+            t3 = await world.add_block([])
+            world.flush()
+            await mgr._notify_sessions(world.height, set(back) | set(t2) | set(t3))
+            await mgr._notify_sessions(world.height, set())
+            want = world.history[hashX]
+            self.res.bump('shrink_scenarios')
+            self.res.evaluations += 1
+            if len(want) != L - 1:
+                self.res.harness_errors.append(f'shrink: the history has {len(want)} entries after the back-out, wanted {L - 1}')
+                continue
+            for who, sess in (('the client that had been refused', ctx.sessions[0]), ('another client', ctx.sessions[2])):
+                r1 = await ask(sess, 'blockchain.scripthash.get_history', tag)
+                if not isinstance(r1, list) or len(r1) != L - 1:
+                    self.violation('history', f'after a reorganisation took the script from {L} back to {L - 1} entries (L={L}), '
+                                              f'get_history by {who} answers {r1 if not isinstance(r1, list) else len(r1)} '
+                                              f'instead of the {L - 1} entries', case)
+                r2 = await ask(sess, 'blockchain.scripthash.subscribe', tag)
+                if r2 != status_of(hashX):
+                    self.violation('subscribe', f'after the same reorganisation subscribe by {who} answers {str(r2)[:70]} '
+                                                f'instead of the status of the {L - 1} entries', case)
+
     async def history_all(self):
         res = self.res
         floor, div = R.history_constants()
@@ -498,12 +569,13 @@ class Limits:
             for ctx, runner, *_ in per_mgr:
                 res.bump('disagreeing_lines', runner.finish())
             await self.retry_window_part(world, per_mgr)
+            await self.shrink_part(world, per_mgr, lengths)       # (leaves its script at L-1 entries again)
             await self.stale_read_part(world, per_mgr, lengths)
         finally:
             world.close()
 
 
-async def run_async(tier, seed, res):
+async def run_async(tier, seed, res, headers=True):
     lim = Limits(res, tier, seed)
     # Runner.request returns only the outcome line; the direct oracle also needs the real result
     orig_call = R.call
@@ -525,7 +597,8 @@ async def run_async(tier, seed, res):
             del s.handle_request
     R.call = recording_call
     try:
-        await lim.headers_part()
+        if headers:
+            await lim.headers_part()
         await lim.history_all()
     finally:
         R.call = orig_call
@@ -549,6 +622,19 @@ def run(tier, seed):
     res.exhaustive = tier != 'quick'
     res.sample({'part': 'headers', 'heights': [0, 5, 2020, 4100], 'cap': advertised_cap()})
     res.sample({'part': 'history', 'max_send': [0, 350000, 350099, 10 ** 6], 'lengths': 'L-2 .. L+1'})
+    return res
+
+
+def run_history(tier, seed):
+    """Entry for C10: the history part only (its `shrink` scenario is a reorganisation across the limit: the
+    history cache must not keep a refusal - or anything else - of the abandoned branch)."""
+    res = SuiteResult('limits')
+    res.rule = ('the history part of suite limits (real sessions over real indexes, histories of L-2..L+1 entries); C10 claims '
+                'the scenario in which a reorganisation takes a history back below the limit')
+    R.history_constants()
+    asyncio.run(run_async('quick', seed, res, headers=False))
+    if not res.stats.get('shrink_scenarios'):
+        res.harness_errors.append('limits: the shrink scenario did not run')
     return res
 
 
